@@ -205,3 +205,18 @@ let () =
          | Some (Some v) -> tok_of_tree (Model.canon v)
          | Some None -> "MISSING" | None -> "NONE")
     | _ -> failwith "c19.roundtrip args")
+;;
+(* headers as functions of the sizes of the children (Variant/Header.v): numbers hex, lists comma separated, _ = empty *)
+let () =
+  register "c19.osc" (function
+    | [m] -> hex_of_n (Model.offset_size_code (n_of_hex m))
+    | _ -> failwith "c19.osc args");
+  register "c19.array_header" (function
+    | [sizes] -> tok_of_bytes (Model.array_header (list_of_tok n_of_hex sizes))
+    | _ -> failwith "c19.array_header args");
+  register "c19.object_header" (function
+    | [ids; sizes] -> tok_of_bytes (Model.object_header (list_of_tok n_of_hex ids) (list_of_tok n_of_hex sizes))
+    | _ -> failwith "c19.object_header args");
+  register "c19.metadata_header" (function
+    | [sorted; sizes] -> tok_of_bytes (Model.metadata_header (sorted = "1") (list_of_tok n_of_hex sizes))
+    | _ -> failwith "c19.metadata_header args")
